@@ -1264,7 +1264,10 @@ func registerLibIntrinsics() {
 		// an instant that is not the zero Time (ext = 1 second): SetDeadline(time.Time{})
 		// clears a deadline, SetDeadline(time.Now()...) sets one that has expired
 		z := in.zero(fr.curInstr.(ssa.Value).Type())
+		// wall = the clock epoch of the reading (vTimePasses: "a long time goes by", longer than
+		// any configured timeout): now+d taken in an earlier epoch has expired in a later one
 		if st, ok := z.(Struct); ok && len(st) >= 2 {
+			st[0] = Int(in.clockEpoch)
 			st[1] = Int(1)
 		}
 		return z, true
